@@ -47,7 +47,8 @@ class ColumnLineageMixin:
                     ]
                     if len(path) > 1:
                         columns.add(tuple(path))
-                else:
+                elif len(path) > 1:
+                    # a column with neither upstream nor downstream is not a lineage path
                     columns.add(tuple(path))
         return columns
 
